@@ -412,3 +412,44 @@ func (f *Field) DataKey(sourceTag string) string {
 	}
 	return f.Key
 }
+
+// BuiltinParams are the parameters a built-in test documents for its issues (nil = none).
+func (t *Test) BuiltinParams() map[string]any {
+	switch t.Op {
+	case TMin:
+		return map[string]any{"min": t.N}
+	case TMax:
+		return map[string]any{"max": t.N}
+	case TLen:
+		return map[string]any{"len": t.N}
+	case THasPrefix:
+		return map[string]any{"prefix": t.Arg}
+	case THasSuffix:
+		return map[string]any{"suffix": t.Arg}
+	case TContains:
+		return map[string]any{"contained": t.Arg}
+	case TOneOf:
+		return map[string]any{"one_of_options": t.Arg}
+	case TMatch:
+		return map[string]any{"match": t.Re.String()}
+	case TEQ:
+		return map[string]any{"eq": t.Arg}
+	case TTrue:
+		return map[string]any{"eq": true}
+	case TFalse:
+		return map[string]any{"eq": false}
+	case TLT:
+		return map[string]any{"lt": t.Arg}
+	case TLTE:
+		return map[string]any{"lte": t.Arg}
+	case TGT:
+		return map[string]any{"gt": t.Arg}
+	case TGTE:
+		return map[string]any{"gte": t.Arg}
+	case TAfter:
+		return map[string]any{"after": t.Arg}
+	case TBefore:
+		return map[string]any{"before": t.Arg}
+	}
+	return nil
+}
